@@ -14,6 +14,8 @@ import EinoV.Model.C16
 import EinoV.Model.C16Keys
 import EinoV.Proofs.C16
 import EinoV.Proofs.C16Keys
+import EinoV.Model.C16Slices
+import EinoV.Proofs.C16Slices
 import EinoV.Gen.FactsC16
 import EinoV.Expected.C16
 
@@ -31,6 +33,9 @@ def gen : Facts :=
 def genK : KeyFacts :=
   { inKeyFwdInvoke := FactsC16.inKeyFwdInvoke, inKeyFwdTransform := FactsC16.inKeyFwdTransform,
     outKeyFwdInvoke := FactsC16.outKeyFwdInvoke, outKeyFwdTransform := FactsC16.outKeyFwdTransform }
+
+/-- The regenerated fact about how `extractOption` grows the lists of `optMap`. -/
+def genV : SliceFacts := { valsGrowFromMapSlot := FactsC16.valsGrowFromMapSlot }
 
 /-! ## property theorems (instantiated with the facts regenerated from /repo) -/
 
@@ -322,6 +327,91 @@ theorem keyed_no_leak (store : List Opt) (cs : List CallW) :
   rw [runCallsW_eq genK_all, no_leak, List.map_map]
   rfl
 
+/-! ## option value lists as Go slices (Model/C16Slices.lean)
+
+  `WithLambdaOption(vals...)` keeps the caller's slice: the value list of an Option can have
+  spare capacity, and Options derived from one base (`DesignateNode` on the value receiver)
+  share one backing array.  `runSW` tells the run with Go's slice semantics on one heap: the
+  lists of `optMap` are slice headers, `append` writes in place within capacity, a node body
+  reads the cells when it runs, nested graphs extract when their node runs.  With the
+  regenerated fact (every list of `optMap` grows by `append` from the map's own slot) none of
+  that is observable. -/
+
+/-- Source fact tie: the regenerated fact is the one the oracle runs with. -/
+theorem slice_facts_match : genV = Expected.C16.sliceFacts := by decide
+
+theorem gen_V : genV.valsGrowFromMapSlot = true := by decide
+
+/-- **capacity_and_sharing_irrelevant.**  For every heap of backing arrays and every list of
+    Options whose value slices point into it – any lengths, any spare capacity, any number of
+    Options sharing an array –, every growth rule of `append`, every paradigm and every tree
+    (any keys): the call run with slice semantics has the outcome of the pure `run` on the
+    Options as they read when the call starts (the subject of `option_reaches_iff`,
+    `designation_errors_iff`, `callbacks_reach_iff`), and every array that existed before the
+    call has all its cells unchanged afterwards. -/
+theorem capacity_and_sharing_irrelevant (grow : Nat → Nat → Nat) (par : Paradigm) (g : WNodes)
+    (opts : List SOpt) (h : VHeap) (hb : ∀ o ∈ opts, o.vh.arr < h.next) :
+    (runSW gen genK genV grow par g opts h).2 = run gen g.erase (opts.map (SOpt.abs h)) ∧
+    Frame h (runSW gen genK genV grow par g opts h).1 := by
+  have := runSW_refines (F := gen) (K := genK) gen_V grow par g opts h hb
+  exact ⟨by rw [this.2, keys_and_paradigm_irrelevant], this.1⟩
+
+/-- **caller_arrays_never_written.**  After the call the caller finds in the backing array of
+    each of its Options – the elements and the spare cells behind them, `[0, cap)` – what was
+    there before. -/
+theorem caller_arrays_never_written (grow : Nat → Nat → Nat) (par : Paradigm) (g : WNodes)
+    (opts : List SOpt) (h : VHeap) (hb : ∀ o ∈ opts, o.vh.arr < h.next) (o : SOpt) (ho : o ∈ opts) :
+    (runSW gen genK genV grow par g opts h).1.cells o.vh = h.cells o.vh := by
+  have hf := (capacity_and_sharing_irrelevant grow par g opts h hb).2
+  unfold VHeap.cells
+  exact List.map_congr_left (fun i _ => hf.2 _ i (hb o ho))
+
+/-- `option_reaches_iff` for the run with slice semantics: the component at `p` receives `v`
+    iff `v` is an element (`[0, len)`) of an Option of the call that has the node's type and is
+    undesignated or designated to a prefix of `p` – whatever else shares that Option's array,
+    whatever capacity it has, whichever other Options address the same node. -/
+theorem sliced_option_reaches_iff (grow : Nat → Nat → Nat) (par : Paradigm) (g : WNodes)
+    (hwf : g.erase.wf = true) (opts : List SOpt) (h : VHeap) (hb : ∀ o ∈ opts, o.vh.arr < h.next)
+    (out : List Entry) (hrun : (runSW gen genK genV grow par g opts h).2 = .ok out)
+    (p : Path) (k : Key) (ty : Nat) (hnode : nodeAt g.erase p = some (.comp k ty)) :
+    (∃ e ∈ out, e.path = p) ∧
+    ∀ e ∈ out, e.path = p → ∀ v, v ∈ e.vals ↔
+      ∃ o ∈ opts, v ∈ h.read o.vh ∧ ty = o.ty ∧
+        (o.paths = [] ∨ ∃ q ∈ o.paths, q ≠ [] ∧ q <+: p) := by
+  rw [(capacity_and_sharing_irrelevant grow par g opts h hb).1] at hrun
+  have := option_reaches_iff g.erase hwf _ out hrun p k ty hnode
+  refine ⟨this.1, fun e he hp v => ?_⟩
+  rw [this.2 e he hp v]
+  constructor
+  · rintro ⟨o', ho', hv, hty, hc⟩
+    obtain ⟨o, ho, rfl⟩ := List.mem_map.mp ho'
+    exact ⟨o, ho, hv, hty, hc⟩
+  · rintro ⟨o, ho, hv, hty, hc⟩
+    exact ⟨o.abs h, List.mem_map_of_mem ho, hv, hty, hc⟩
+
+/-- **sliced_no_leak.**  For every construction of the caller's store (fresh Options over value
+    lists with any spare capacity, Options derived from earlier ones and sharing their arrays)
+    and every sequence of calls over it (any graphs, keys, paradigms, index sets): each call's
+    outcome is the pure `run` on the Option values the construction *means* (`specStore`: no
+    capacities in it), the caller's Option values are the same afterwards, and so is every cell
+    – spare ones included – of every array the construction made. -/
+theorem sliced_no_leak (grow : Nat → Nat → Nat) (ops : List StoreOp) (hwf : storeOpsWf ops 0 = true)
+    (cs : List CallW) :
+    let b := buildStore ops (VHeap.empty, [])
+    let r := runCallsSW gen genK genV grow b.1 b.2 cs
+    r.1 = cs.map (fun c => run gen c.g.erase (pick (specStore ops) c.ixs)) ∧
+    r.2.1 = b.2 ∧ (∀ o ∈ b.2, r.2.2.cells o.vh = b.1.cells o.vh) := by
+  intro b r
+  obtain ⟨hb, hspec⟩ := buildStore_empty ops hwf
+  have := runCallsSW_refines (F := gen) (K := genK) gen_C gen_V grow cs b.1 b.2 hb
+  refine ⟨?_, this.2.1, ?_⟩
+  · show (runCallsSW gen genK genV grow b.1 b.2 cs).1 = _
+    rw [this.1, hspec]
+    exact List.map_congr_left (fun c _ => keys_and_paradigm_irrelevant c.par c.g _)
+  · intro o ho
+    unfold VHeap.cells
+    exact List.map_congr_left (fun i _ => this.2.2.2 _ i (hb o ho))
+
 /-! ## non-vacuity -/
 
 example : specPaths [.base, .designate 0 [["a"]], .designate 1 [["b"]], .designate 2 [["c"]],
@@ -462,6 +552,62 @@ theorem input_key_drops_options_on_stream_path_when_not_forwarded :
         [{ ty := 1, vals := [1], handlers := [], paths := [["sub", "zz"]] }]).isOk = true) ∧
     runW Expected.C16.facts K .invoke exKeyed exKeyedOpts
       = run Expected.C16.facts exKeyed.erase exKeyedOpts := by
+  decide
+
+/-- what the component entries of a run received -/
+def valsAt : Except RunErr (List Entry) → List (Path × List Nat)
+  | .ok es => (es.filter (fun e => !e.isGraph)).map (fun e => (e.path, e.vals))
+  | .error _ => []
+
+/-- the caller's arrays (cells `[0, cap)`) after one `Invoke` of `g` with the whole store -/
+def afterOneCall (V : SliceFacts) (g : WNodes) (ops : List StoreOp) :
+    List (Path × List Nat) × List (List Nat) :=
+  let b := buildStore ops (VHeap.empty, [])
+  let r := runSW Expected.C16.facts Expected.C16.keyFacts V goGrowAny .invoke g b.2 b.1
+  (valsAt r.2, b.2.map (fun o => r.1.cells o.vh))
+
+/-- a ⟶ b, two lambdas of option type 1 -/
+def exTwo : WNodes := .cons (.comp "a" 1 Wrap.plain) <| .cons (.comp "b" 1 Wrap.plain) .nil
+/-- sub[ a ] ⟶ t -/
+def exNested : WNodes :=
+  .cons (.graph "sub" (.cons (.comp "a" 1 Wrap.plain) .nil) Wrap.plain) <| .cons (.comp "t" 1 Wrap.plain) .nil
+
+/-- an undesignated Option over a value list with one spare cell, then one Option per node -/
+def exCommon : List StoreOp :=
+  [.fresh 1 [1] 1 [] [], .fresh 1 [2] 0 [] [["a"]], .fresh 1 [3] 0 [] [["b"]]]
+/-- one base (two spare cells) designated to `a` and to `b` (two derived Options sharing its
+    array; the base itself is not passed), then one more Option per node -/
+def exSiblings : List StoreOp :=
+  [.fresh 1 [1] 2 [] [["zz"]], .derived 0 [["a"]], .derived 0 [["b"]],
+   .fresh 1 [2] 0 [] [["a"]], .fresh 1 [3] 0 [] [["b"]]]
+
+example : storeOpsWf exCommon 0 = true ∧ storeOpsWf exSiblings 0 = true := by decide
+example : specStore exCommon = [⟨1, [1], [], []⟩, ⟨1, [2], [], [["a"]]⟩, ⟨1, [3], [], [["b"]]⟩] := by decide
+example : afterOneCall Expected.C16.sliceFacts exTwo exCommon
+    = ([(["a"], [1, 2]), (["b"], [1, 3])], [[1, 0], [2], [3]]) := by decide
+example : afterOneCall Expected.C16.sliceFacts exNested
+      [.fresh 1 [1] 1 [] [], .fresh 1 [2] 0 [] [["sub", "a"]], .fresh 1 [3] 0 [] [["t"]]]
+    = ([(["sub", "a"], [1, 2]), (["t"], [1, 3])], [[1, 0], [2], [3]]) := by decide
+
+/-- If a node's first list were the Option's own slice (`optMap[k] = opt.options`, `append` only
+    from the second Option on), lists of different nodes would share the caller's array and
+    write each other's cells: an Option designated to `b` is delivered to `a` instead of the one
+    designated to `a` (shared undesignated Option; two Options derived from one base), a node
+    later in the chain receives what was designated into a nested graph, and the call writes
+    into the spare cells of the caller's array: `capacity_and_sharing_irrelevant`,
+    `caller_arrays_never_written` and `sliced_option_reaches_iff` are false for that value of
+    the fact.  Without spare capacity nothing of it shows. -/
+theorem first_list_aliasing_misdelivers :
+    let V : SliceFacts := { valsGrowFromMapSlot := false }
+    afterOneCall V exTwo exCommon = ([(["a"], [1, 3]), (["b"], [1, 3])], [[1, 3], [2], [3]]) ∧
+    (let st := (buildStore exSiblings (VHeap.empty, []))
+     valsAt (runSW Expected.C16.facts Expected.C16.keyFacts V goGrowAny .invoke exTwo (pickS st.2 [1, 2, 3, 4]) st.1).2)
+      = [(["a"], [1, 3]), (["b"], [1, 3])] ∧
+    afterOneCall V exNested
+        [.fresh 1 [1] 1 [] [], .fresh 1 [2] 0 [] [["sub", "a"]], .fresh 1 [3] 0 [] [["t"]]]
+      = ([(["sub", "a"], [1, 2]), (["t"], [1, 2])], [[1, 2], [2], [3]]) ∧
+    afterOneCall V exTwo [.fresh 1 [1] 0 [] [], .fresh 1 [2] 0 [] [["a"]], .fresh 1 [3] 0 [] [["b"]]]
+      = ([(["a"], [1, 2]), (["b"], [1, 3])], [[1], [2], [3]]) := by
   decide
 
 /-- Stripping two keys instead of one sends the option to the wrong level. -/
